@@ -8,7 +8,9 @@ for id in "$@"; do
   git status --short | grep -v '^??' | head -5
   BASELINE_REPO=$wt /verif/bin/baseline | head -3
   bash demo/demo.sh > /tmp/confirm_$id.with.log 2>&1; echo "demo with change: rc=$?"
-  git stash -q
+  git diff -- src core vendor Cargo.toml > /tmp/confirm_$id.patch
+  cmp -s /tmp/confirm_$id.patch demo/patch.diff || echo "note: worktree diff differs from demo/patch.diff (using the worktree diff)"
+  git checkout -q -- src core vendor Cargo.toml 2>/dev/null
   bash demo/demo.sh > /tmp/confirm_$id.without.log 2>&1; echo "demo without change: rc=$?"
-  git stash pop -q
+  git apply /tmp/confirm_$id.patch
 done
